@@ -28,7 +28,7 @@ CHECKS["C03"] = dict(
          "atoms at every state against the executable LTL_f specification on all traces.  occurrences_equated / occurrences_follow — "
          "model StepData of BodyFormula.translate / add_atom / StepData.add_literal: after any sequence of registrations of occurrence "
          "literals and translations of a (formula, step) pair ending with a translation, every occurrence is the formula's literal or has "
-         "been made equivalent to it and nothing else is written (random call sequences on the real methods vs the model).  placeholder_life — the life cycle of the obligation of a `>` beyond the horizon (model of Next.do_translate and the todo list; every call of the real method is compared with the model): pending with the end-of-trace value and queued under its own step exactly while the target state does not exist, resolved in the one call in which the horizon reaches the target.",
+         "been made equivalent to it and nothing else is written (random call sequences on the real methods vs the model); theory_atoms_equated — the same over any number of Theory.translate calls (model TheoryCall; its hypothesis GoodCall and the per-pair StepData are checked on every call of real runs).  placeholder_life — the life cycle of the obligation of a `>` beyond the horizon (model of Next.do_translate and the todo list; every call of the real method is compared with the model): pending with the end-of-trace value and queued under its own step exactly while the target state does not exist, resolved in the one call in which the horizon reaches the target.",
     design="§6 C03", technique="Lean 4 proof (unique solution of the translation's equation system = LTL_f) + equation-level correspondence with the real translation")
 
 CHECKS["C05"] = dict(
